@@ -39,6 +39,7 @@ def native(tier, seed, scratch):
     env = dict(os.environ)
     env["ASAN_OPTIONS"] = "detect_leaks=0:halt_on_error=0:redzone=256"
     env["UBSAN_OPTIONS"] = "print_stacktrace=1"
+    env["OMP_WAIT_POLICY"] = "passive"
     procs = [subprocess.Popen([str(exe), str(maxlen), str(sh), str(nsh), str(seed + 1)], stdout=subprocess.PIPE,
                               stderr=subprocess.PIPE, text=True, env=env) for sh in range(nsh)]
     seen = {}
@@ -66,6 +67,9 @@ def native(tier, seed, scratch):
                 cov["counters"]["native_calls:" + name] = cov["counters"].get("native_calls:" + name, 0) + int(cnt)
             if line.startswith("LENGTH-MISMATCH"):
                 viol.append(dict(prop="C08", kind="sanitizer:length-mismatch", fn="dtw_distances_*", report=line))
+            if line.startswith("PARALLEL-DIFFERS"):
+                # not a memory-safety event by itself (C07 decides schedule independence); recorded as evidence
+                cov["counters"]["native_parallel_differs_from_serial"] = cov["counters"].get("native_parallel_differs_from_serial", 0) + 1
             if line.startswith("UNWRITTEN"):
                 # dtw_cc.pyx hands array.resize()d (uninitialised) memory to these routines: an advertised entry that
                 # is not written is uninitialised memory returned to the Python caller
